@@ -288,5 +288,49 @@ pub fn for_each_case<F: Fn(&Case) + Sync>(rep: &Report, thorough: bool, f: F) {
         let samples = vec![("ref#0".to_string(), vec![("c".to_string(), r.clone())]), ("s1#0".to_string(), orphans)];
         big.push(Case { id: format!("compressible_orphans{n}"), samples, cfg, edits: format!("{n} contigs of 24-30 bases with k=31 in one sample") });
     }
+    // edit sweep: one archive, ~200 delta-coded samples, each a different point of two small products
+    for (wi, (k, seg, mm)) in [(11usize, 50usize, 15usize), (15, 60, 20)].iter().enumerate() {
+        let cfg = Cfg { k: *k, segment_size: *seg, min_match: *mm, threads: 2, ..Cfg::default() };
+        big.push(Case { id: format!("editsweep{wi}"), samples: edit_sweep(seed.wrapping_add(wi as u64), &cfg), cfg, edits: "contig ends: {tail, head} x cut 0..3 x SNP at distance 1..32 from the end; assembly gaps: N10 in the reference vs N{4,9,10,11,25} in the sample x SNP at distance 1..20 before / after the gap".into() });
+    }
     par_for(big.len(), ncpu().min(8), |i| if case_selected(&big[i].id) { f(&big[i]) });
+}
+
+/// Reference sample + 200 samples derived from it; every sample is one point of
+///  A (contig c1, first and last segment >= 48 bases): {tail, head} x cut t in 0..=3 bases x one SNP at
+///    distance d in 1..=32 from that end,
+///  B (contig c2 = g1 N10 g2 N10 g3): gap length in the sample {4, 9, 10, 11, 25} x one SNP d in 1..=20
+///    bases before the first gap / after the second gap.
+/// Both families sit where the delta coder switches between literals, matches, N-run tokens and the
+/// "match runs to the end of the reference" short form.
+pub fn edit_sweep(seed: u64, cfg: &Cfg) -> Vec<Sample> {
+    let mut rng = Rng::new(seed ^ 0xED17_5EE9);
+    let mut c1 = rng.bases(300);
+    for _ in 0..200 {
+        let rm = RefModel::new(c1.clone(), cfg);
+        let (f, l) = (rm.segs[0], rm.segs[rm.segs.len() - 1]);
+        if rm.segs.len() >= 3 && f.1 - f.0 >= 48 && l.1 - l.0 >= 48 { break; }
+        c1 = rng.bases(300);
+    }
+    let (g1, g2, g3) = (rng.bases(120), rng.bases(120), rng.bases(120));
+    let with_gaps = |a: &[u8], n: usize, b: &[u8], c: &[u8]| -> Vec<u8> { let mut v = a.to_vec(); v.extend(vec![4u8; n]); v.extend_from_slice(b); v.extend(vec![4u8; n]); v.extend_from_slice(c); v };
+    let c2 = with_gaps(&g1, 10, &g2, &g3);
+    let mut fam_a: Vec<Vec<u8>> = Vec::new();
+    for tail in [true, false] { for t in 0..=3usize { for d in 1..=32usize {
+        let mut v = if tail { c1[..c1.len() - t].to_vec() } else { c1[t..].to_vec() };
+        let p = if tail { v.len() - d } else { d - 1 };
+        v[p] = (v[p] + 1 + (d as u8 % 3)) & 3;
+        fam_a.push(v);
+    } } }
+    let mut fam_b: Vec<Vec<u8>> = Vec::new();
+    for before in [true, false] { for g in [4usize, 9, 10, 11, 25] { for d in 1..=20usize {
+        let (mut a, mut c) = (g1.clone(), g3.clone());
+        if before { let p = a.len() - d; a[p] = (a[p] + 1 + (d as u8 % 3)) & 3; } else { c[d - 1] = (c[d - 1] + 1 + (d as u8 % 3)) & 3; }
+        fam_b.push(with_gaps(&a, g, &g2, &c));
+    } } }
+    let mut samples: Vec<Sample> = vec![("ref#0".to_string(), vec![("c1".to_string(), c1), ("c2".to_string(), c2)])];
+    for i in 0..fam_a.len().max(fam_b.len()) {
+        samples.push((format!("v{i:03}#0"), vec![("c1".to_string(), fam_a[i % fam_a.len()].clone()), ("c2".to_string(), fam_b[i % fam_b.len()].clone())]));
+    }
+    samples
 }
